@@ -153,6 +153,37 @@ def run(cx, chk):
             chk.ok("C18.key", "header", {"header_depends_on": "its parameter (the grammar text) + compile-time constants"})
         else:
             chk.violation("C18.key", "header ignores text", "generate_source_header does not depend on the grammar text", cx.site(hb))
+        # the digest covers the whole text: a checksum over a *view* of the text (its lines, a trimmed / filtered / normalised copy)
+        # is blind to the bytes the view drops, and an edit of just those bytes is skipped by the shortcut
+        from .. import sem as _sem
+        try:
+            hsm = _sem.Sem(cx, cg, inline=lambda p_: False).summarize(hp[0])
+        except _sem.SemLimit:
+            hsm = None
+        P1 = mir.mk("param", 1)
+        WHOLE = lambda t: t == P1 or (t[0] == "call" and last(t[1]) in ("as_bytes", "bytes", "as_ref", "as_str", "deref", "borrow") and len(t[2]) == 1 and WHOLE(t[2][0])) \
+            or (t[0] in ("ref", "deref") and WHOLE(t[1]))
+        digests = []
+        if hsm is not None:
+            for l in list(hsm.leaves) + list(hsm.loopbacks):
+                for ev in l.trace:
+                    t = ev[0]
+                    if t[0] == "call" and last(t[1]) in ("checksum", "update", "write", "hash", "digest") and len(t[2]) >= 2 and \
+                            any(x_ in t[1].lower() for x_ in ("crc", "digest", "hash", "table")):
+                        digests.append((t, l.kind))
+        if not digests:
+            chk.note("C18.key: no checksum / hash call recognised in generate_source_header - coverage of the text by the header is not decided")
+        else:
+            bad = [(t, k) for (t, k) in digests if not WHOLE(t[2][-1]) or k != "return"]
+            if bad:
+                t, k = bad[0]
+                chk.violation("C18.key", "header digest is partial",
+                              "the header's checksum is fed %s%s, not the whole grammar text: bytes the view leaves out (line breaks, trimmed or filtered "
+                              "characters) do not change the header, so an edit of only those bytes - which can change the meaning of the grammar, e.g. a "
+                              "line break after a `#` comment - is taken for 'up to date' and the old output is kept"
+                              % (mir.show(t[2][-1])[:100], " piecewise in a loop" if k != "return" else ""), cx.site(hb))
+            else:
+                chk.ok("C18.key", "header digest", {"covers": "the whole grammar text (as_bytes of the parameter)", "digest_calls": len(digests)})
     # ---- err: every fallible step is propagated: a path on which it failed returns that failure
     FALLIBLE = lambda t: t[0] == "call" and ((last(t[1]) == "read_to_string" and "fs::" in t[1]) or is_parse(t) or is_gen(t) or is_mut(t) or (last(t[1]) in ("status", "output", "spawn") and "Command" in t[1]))
     n = 0
